@@ -213,6 +213,7 @@ func (fx *FX) enterLoop(fr *frame, li *loopInfo, b *ssa.BasicBlock, ins []*State
 		}
 	}
 	lc := &loopCtx{phiVals: map[*ssa.Phi]Term{}, st: st}
+	var first []string
 	for _, instr := range b.Instrs {
 		phi, ok := instr.(*ssa.Phi)
 		if !ok {
@@ -224,7 +225,28 @@ func (fx *FX) enterLoop(fr *frame, li *loopInfo, b *ssa.BasicBlock, ins []*State
 		fr.vals[phi] = Val{T: t, Typ: phi.Type()}
 		lc.phiVals[phi] = t
 		fx.assumeWF(st, t, phi.Type())
+		if old.T.S != "" && old.T.Sort == t.Sort {
+			first = append(first, "(= "+t.S+" "+old.T.S+")")
+		}
 	}
+	// replay hint: the loop state equals the state at loop entry (first iteration), which makes a
+	// counterexample's pre-state a reachable one
+	for a := range log.cells {
+		if o, ok := entry.cells[a]; ok {
+			if n, ok := st.cells[a]; ok && n.S != o.S && n.Sort == o.Sort {
+				first = append(first, "(= "+n.S+" "+o.S+")")
+			}
+		}
+	}
+	for k := range log.comps {
+		if o, ok := entry.comps[k]; ok {
+			if n, ok := st.comps[k]; ok && n.S != o.S && n.Sort == o.Sort {
+				first = append(first, "(= "+n.S+" "+o.S+")")
+			}
+		}
+	}
+	sort.Strings(first)
+	st.firstIter = append(append([]string{}, entry.firstIter...), first...)
 	loopCtxs[b] = lc
 	env2 := fx.newEnv(fr, st)
 	fx.addLoopNames(fr, env2, b)
